@@ -31,6 +31,7 @@
 (*          sunk (ids in the pack that are not objects of U), thin (bases  *)
 (*          outside the pack)                                              *)
 (*   hk     1: the haves the sender worked from are known: haves           *)
+(*   offered   every object a dulwich client named in a "have" line        *)
 (*   mode, srv   ack mode and the server's view of the dialogue            *)
 (*          (<<"r","have",o>> <<"r","flush">> <<"r","done">>               *)
 (*           <<"w","ACK",o,kind>> <<"w","NAK">>), <<>> if not recorded      *)
@@ -164,6 +165,8 @@ Judge(t) ==
                    ELSE 0
         shape ==
             IF t.forged = 1 /\ ok THEN "ForgedWantAccepted"
+            \* a client only offers what it holds (shallow or not): the walker never leaves its store
+            ELSE IF ~(SeqSet(t.offered) \subseteq r0) THEN "ClientOffersAbsent"
             ELSE IF ~shallow /\ sr[1] # 0 THEN "ServerDialogue@" \o ToString(sr[1])
             ELSE IF ~shallow /\ cr # 0 THEN "ClientDialogue@" \o ToString(cr)
             ELSE IF hk /\ ~(haves \subseteq (IF t.op = "push" THEN r0 ELSE r0 \cap sstore)) THEN "HavesSound"
